@@ -115,12 +115,17 @@ def cmd_check(sid, props, tier="quick", seed="1"):
     d = worktree(sid, True)
     out_dir = f"/tmp/st-out-{sid}-{os.getpid()}"
     os.makedirs(out_dir, exist_ok=True)
+    # run from a private snapshot of the harness, so that edits in /verif/harness made while the trial
+    # runs cannot break (or change) its build
+    snap = f"/tmp/st-verif-{sid}-{os.getpid()}"
+    os.makedirs(snap, exist_ok=True)
+    sh(f"cp -a /verif/run.sh /verif/known_findings.txt /verif/harness {snap}/")
     try:
         for p in props:
             env = dict(ENV, VERIF_REPO=d, VERIF_OUT=out_dir, VERIF_SEED=seed)
             t0 = time.time()
             try:
-                rc, out = sh(["/verif/run.sh", p, tier], cwd="/verif", env=env, timeout=5400)
+                rc, out = sh([snap + "/run.sh", p, tier], cwd=snap, env=env, timeout=5400)
             except subprocess.TimeoutExpired:
                 rc, out = 99, "timeout"
             sigs = sorted(set(re.findall(r"signature=(\S+)", out)))
@@ -131,8 +136,7 @@ def cmd_check(sid, props, tier="quick", seed="1"):
             if rc not in (0, 1):
                 print(out[-1500:])
     finally:
-        drop(d); shutil.rmtree(out_dir, ignore_errors=True)
-        shutil.rmtree(f"/verif/bin/alt-" + subprocess.run(f"echo {d} | md5sum | cut -c1-8", shell=True, capture_output=True, text=True).stdout.strip(), ignore_errors=True)
+        drop(d); shutil.rmtree(out_dir, ignore_errors=True); shutil.rmtree(snap, ignore_errors=True)
     cur = load(sid)  # re-read: other tools may have edited the file meanwhile
     cur.setdefault("checks", {}).update(m["checks"])
     save(sid, cur)
